@@ -87,11 +87,21 @@ def squeeze(s: str) -> str:
 LITP = [",", ";", "!", "&", "(", ")", "=", "::", "a", "b c", "  ", " ", "OTHER", "DOUBLED", "call g()",
         "end module", "contains", "function f()", "Q0Q", "%", "//", "id,name", ", ", ",,", "x,", ",y",
         "!!", "!>", "end", "1", "(a,i0)", "[", "]", "=>", "subroutine s", "*", "==", "   ", "'",
-        " ,", "= ", " =", "( ", " )", "a, b", ": :", "Ab", "E", "\t"]
+        " ,", "= ", " =", "( ", " )", "a, b", ": :", "Ab", "E", "\t",
+        # ordinary characters of a Fortran literal that other languages / regex and template engines
+        # treat specially, and digits (a literal may spell one of FORD's own placeholders)
+        "\\", "\\\\", "C:\\", "\\n", "\\1", "\\g<0>", "%", "#", "$", "{x}", "~", "`", "?", "@", "^", "<b>", "0", "2", "10"]
 
 
-def make_lit(rng, maxp=4, pieces=LITP):
+def make_lit(rng, maxp=4, pieces=LITP, lookalike=0.12):
+    """A character literal.  With probability `lookalike` its text is a small number in quotes -
+    the spelling of the placeholders (`"0"`, `"1"`, ...) FORD's masking pass writes into the
+    statement: literal text is data, so a literal that looks like a placeholder must stay the
+    literal it is, at its own place."""
     q = rng.choice("'\"")
+    if rng.random() < lookalike:
+        q = rng.choice("\"\"\"'")
+        return ("lit", q + str(rng.choice([0, 0, 1, 1, 2, 3, 10])) + q)
     other = '"' if q == "'" else "'"
     body = ""
     for _ in range(rng.randint(0, maxp)):
@@ -187,12 +197,19 @@ class Prog:
                 self.add("character(len=12), save ::", nm, "=", e, doc=True)
             self.inits[(scope, nm)] = e
         elif r < 0.75:
-            l1, l2 = self.lit(2), self.lit(2)
+            # array constructor with 2 .. 5 literals (the k-th literal of a statement need not be
+            # the k-th placeholder look-alike)
+            n = self.rng.choice([2, 2, 3, 3, 4, 5])
+            items = []
+            for i in range(n):
+                if i:
+                    items += atoms_of(",")
+                items.append(self.lit(2))
             if self.rng.random() < 0.5:
-                e = [*atoms_of("["), l1, *atoms_of(","), l2, *atoms_of("]")]
+                e = [*atoms_of("["), *items, *atoms_of("]")]
             else:
-                e = [*atoms_of("(/"), l1, *atoms_of(","), l2, *atoms_of("/)")]
-            self.add("character(len=4), dimension(2) ::", nm, "=", e, doc=True)
+                e = [*atoms_of("(/"), *items, *atoms_of("/)")]
+            self.add("character(len=4), dimension(%d) ::" % n, nm, "=", e, doc=True)
             self.inits[(scope, nm)] = e
         elif r < 0.9:
             f = self.rng.choice(["len(", "len_trim(", "iachar("])
@@ -282,13 +299,44 @@ class Prog:
 
 # no HTML/back-slash material here: how bind names are *displayed* is C18's business
 BINDP = ["a", "b_c", ",", ";", "(", ")", "!", "&", " ", "OTHER", "DOUBLED", "name=", "x,y", "bind(c)",
-         ", ", " ,", "  ", "= ", " =", "( ", " )", "a, b", "C", "Name"]
+         ", ", " ,", "  ", "= ", " =", "( ", " )", "a, b", "C", "Name", "0", "1"]
 
 
 def gen_program(rng, tag):
     p = Prog(rng, tag)
     p.module()
     return p
+
+
+# literal texts of the bounded-exhaustive declaration sweep: placeholder look-alikes in both quote
+# kinds, a placeholder look-alike inside a literal, an empty literal, a comma, a trailing backslash
+SWEEP_LITS = ['"0"', '"1"', '"2"', "'0'", "'1'", '"x"', "'a,b'", '""', "'\"0\"'", '"\\"']
+
+
+def sweep_programs(maxn=3, per_module=40):
+    """Bounded-exhaustive: every array constructor `[L1, ..., Ln]` (n <= maxn) over SWEEP_LITS as the
+    initial value of a declaration, `per_module` declarations per generated module."""
+    import itertools
+
+    combos = [c for n in range(1, maxn + 1) for c in itertools.product(SWEEP_LITS, repeat=n)]
+    for i in range(0, len(combos), per_module):
+        p = Prog(None, "w%d" % (i // per_module))
+        mod = p.name("m")
+        p.add("module", mod)
+        for c in combos[i:i + per_module]:
+            nm = p.name("v")
+            e = atoms_of("[")
+            for j, t in enumerate(c):
+                if j:
+                    e += atoms_of(",")
+                e.append(("lit", t))
+                p.nlit += 1
+            e += atoms_of("]")
+            p.decls[nm] = len(p.stmts)
+            p.add("character(len=4), dimension(%d) ::" % len(c), nm, "=", e)
+            p.inits[(mod, nm)] = e
+        p.add("end module", mod)
+        yield p
 
 
 def neutralise(stmts):
